@@ -38,6 +38,12 @@ func newNodeFromEntity(ent *entity, id NodeID, intCount int) *Node {
 		interfaceCount: intCount,
 	}
 
+	// a negative interface count is treated as zero
+	if intCount < 0 {
+		intCount = 0
+		node.interfaceCount = 0
+	}
+
 	node.interfaces = make([]*NodeInterface, intCount)
 	for i := 0; i < intCount; i++ {
 		node.interfaces[i] = newNodeInterface(i, node)
